@@ -232,6 +232,9 @@ func (f *Frame) applyContract(c *cursor, site ssa.Instruction, callee *ssa.Funct
 	e := f.e
 	f.callNo[key]++
 	env := &SpecEnv{f: f, names: map[string]Term{}, types: map[string]types.Type{}, cur: c.st, old: c.st}
+	if callee.Pkg != nil {
+		env.pkg = callee.Pkg.Pkg
+	}
 	for i, p := range callee.Params {
 		if i < len(args) && args[i].S != "" {
 			env.names[p.Name()] = args[i]
@@ -253,7 +256,7 @@ func (f *Frame) applyContract(c *cursor, site ssa.Instruction, callee *ssa.Funct
 	ef := e.P.effectsOf(callee, e.U)
 	e.havoc(c.st, ef.Fams, ef.All)
 	res := f.freshResults(callee.Signature, c.st, sanitize(callee.Name()))
-	env2 := &SpecEnv{f: f, names: env.names, types: env.types, cur: c.st, old: pre}
+	env2 := &SpecEnv{f: f, names: env.names, types: env.types, cur: c.st, old: pre, pkg: env.pkg}
 	bindResultNames(env2, callee, res)
 	var ens []Term
 	for _, en := range append(append([]*Clause{}, spec.Ensures...), spec.Assumes...) {
